@@ -1753,7 +1753,7 @@ class KnowlesRTransform(BaseTransform):
             The second derivative of Knowles transformation at each point.
 
         """
-        qi = 1 + x
+        qi = 1.0 + x
         return (
             self._R
             * self._k
@@ -1782,7 +1782,7 @@ class KnowlesRTransform(BaseTransform):
             The third derivative of Knowles transformation at each point.
 
         """
-        qi = 1 + x
+        qi = 1.0 + x
         return (
             self._R
             * self._k
@@ -1940,7 +1940,7 @@ class HandyRTransform(BaseTransform):
             * self._m
             * self._R
             * (self._m + x)
-            * (1 + x) ** (self._m - 2)
+            * (1.0 + x) ** (self._m - 2)
             / (1 - x) ** (self._m + 2)
         )
 
@@ -1970,7 +1970,7 @@ class HandyRTransform(BaseTransform):
             * self._m
             * self._R
             * (1 + 6 * self._m * x + 2 * self._m**2 + 3 * x**2)
-            * (1 + x) ** (self._m - 3)
+            * (1.0 + x) ** (self._m - 3)
             / (1 - x) ** (self._m + 3)
         )
 
@@ -2154,7 +2154,7 @@ class HandyModRTransform(BaseTransform):
                 * two_m
                 * (two_m - size_r - 1)
                 * size_r
-                * (1 + x) ** (self._m - 2)
+                * (1.0 + x) ** (self._m - 2)
                 * (
                     -two_m * (self._m - 1) * (two_m - size_r - 1)
                     - (self._m + 1) * (two_m - size_r) * (1 + x) ** (self._m)
@@ -2184,7 +2184,7 @@ class HandyModRTransform(BaseTransform):
                 * two_m
                 * size_r
                 * (two_m - size_r - 1)
-                * (1 + x) ** (self._m - 3)
+                * (1.0 + x) ** (self._m - 3)
                 * (
                     two_m**2 * (self._m - 2) * (self._m - 1) * (1 - two_m + size_r) ** 2
                     + 2 ** (self._m + 2)
